@@ -306,7 +306,8 @@ def make_inputs(spec, op, seed):
         }
     if kind == "estimate":
         return {
-            "timepoints": {"a": [60.0, 70.5, 81.0], "zz": np.array([75.0, 64.5]), "b": [90.0]},
+            # a list, an array and a single age given as a plain number (accepted: `np.atleast_1d`), all three must come out as given
+            "timepoints": {"a": [60.0, 70.5, 81.0], "zz": np.array([75.0, 64.5]), "b": 90.0},
             "individual_parameters": make_individual_parameters(spec),
         }
     if kind == "simulate":
